@@ -126,6 +126,8 @@ def build_proofs(prop):
 # ------------------------------------------------------------------ harness
 
 def build_harness(debug=False):
+    if os.environ.get("VERIF_SKIP_BUILD"):      # lib/trymutant.sh only: binaries were built a moment ago from a patched /repo
+        return True, ""
     lockf = os.path.join(HARNESS, "Cargo.lock")
     if not os.path.exists(lockf):
         shutil.copy("/repo/Cargo.lock", lockf)
@@ -150,11 +152,12 @@ def pre_cli():
     .work/cli-target (never inside /repo), prepare the tree-sitter-loader environment .work/cli-env
     (config + a copy of the python grammar from the cargo registry; the loader compiles it with cc on
     first use) and check that the binary runs there."""
-    with Lock("cargo"):
-        rc, out = run(["cargo", "build", "--offline", "--features", "cli"], cwd="/repo",
-                      env=dict(ENV, CARGO_TARGET_DIR=CLI_TARGET), timeout=1500)
-    if rc != 0:
-        return False, out[-3000:], {}
+    if not os.environ.get("VERIF_SKIP_BUILD"):
+        with Lock("cargo"):
+            rc, out = run(["cargo", "build", "--offline", "--features", "cli"], cwd="/repo",
+                          env=dict(ENV, CARGO_TARGET_DIR=CLI_TARGET), timeout=1500)
+        if rc != 0:
+            return False, out[-3000:], {}
     binary = os.path.join(CLI_TARGET, "debug", "tree-sitter-graph")
     if not os.path.isfile(binary):
         return False, "cargo build --features cli produced no %s" % binary, {}
